@@ -151,7 +151,7 @@ def r3(ctx):
         leak = [x for x in esc if x in nxt or b.term(x)["k"] == "return"]
         ctx.inst(R, "check_retx:act-on-threshold", not leak, b.term(e[0]).get("s", b.span), "a candidate over the threshold is always aborted, re-handshaken or rewound" if not leak else
                  "a candidate that crossed the retransmit threshold can be skipped without retransmission or abort: lost segments are never resent")
-    at = list(b.calls("turmoil_net::kernel::tcp::abort_timed_out"))
+    at = list(b.calls(re.compile(r"^turmoil_net::kernel::tcp::(abort_timed_out|abort_with)$")))
     eh = list(b.calls("turmoil_net::kernel::tcp::emit_handshake"))
     ctx.inst(R, "check_retx:abort-reaches-abort_timed_out", len(at) == 1, b.span, "abort list is drained into abort_timed_out" if at else "abort list is never acted upon")
     ctx.inst(R, "check_retx:resend-reaches-emit_handshake", len(eh) == 1, b.span, "resend list is drained into emit_handshake" if eh else "resend list is never acted upon")
